@@ -2443,8 +2443,8 @@ fn lexicon_oracle<W: Write>(o: &mut Out<W>) {
         (j(Stamp::Present, Truth::Empty), "a.:|:"),
         (j(Stamp::Future, Truth::Empty), "a.:/:"),
         (j(Stamp::Fixed(-1), Truth::Empty), "a.:!-1:"),
-        (j(Stamp::Eternal, Truth::Single(1.0)), "a.%1%"),
-        (j(Stamp::Eternal, Truth::Double(1.0, 0.9)), "a.%1;0.9%"),
+        (j(Stamp::Eternal, Truth::Single(0.5)), "a.%0.5%"),
+        (j(Stamp::Eternal, Truth::Double(0.5, 0.9)), "a.%0.5;0.9%"),
         (Narsese::Task(Task(Sentence::Judgement(a(), Truth::Empty, Stamp::Eternal), Budget::Empty)), "$$a."),
         (Narsese::Task(Task(Sentence::Judgement(a(), Truth::Empty, Stamp::Eternal), Budget::Single(0.5))), "$0.5$a."),
         (Narsese::Task(Task(Sentence::Judgement(a(), Truth::Empty, Stamp::Eternal), Budget::Triple(0.5, 0.75, 0.4))), "$0.5;0.75;0.4$a."),
